@@ -408,6 +408,10 @@ pub fn run(ctx: &Ctx) -> (Acc, String, bool) {
         "5 |> 6",
         "5 ; ;",
         "1 + (2 |> 3)",
+        // a symbol made at run time from text, the same symbol written as a literal, and a symbol rendered as text
+        "\"abc\" ~# :x",
+        ":abc ~# \"\"",
+        "(\"abc\" ~# :x) ~# \"\"",
         // no significant token at all: its entry must still be its own
         "",
         "  @@ nothing here",
